@@ -244,9 +244,9 @@ def nest_form(rng: random.Random) -> dict:
         n[0] += 1
         return f"{p}{n[0]}"
 
-    def question(in_repeat):
+    def question(in_repeat, in_loop=False):
         t = rng.choice(["text", "integer", "date", "dateTime", "decimal", "text"])
-        row = {"type": t, "name": fresh("q"), "label": "L" + str(n[0])}
+        row = {"type": t, "name": fresh("q"), "label": "L" + str(n[0]) + (" %(label)s" if in_loop and rng.random() < 0.5 else "")}
         r = rng.random()
         if r < 0.45:
             if t in ("date",):
@@ -262,23 +262,39 @@ def nest_form(rng: random.Random) -> dict:
             row["calculation"] = rng.choice(["now()", "1 + 1", "${" + rng.choice(names) + "}"])
         elif r < 0.7:
             row["default"] = rng.choice(["abc", "5"]) if t == "text" else "5"
-        names.append(row["name"])
+        if in_loop:
+            # loop children are copied once per choice: they cannot be referenced or trigger anything
+            row.pop("trigger", None)
+            if "trigger" not in row and "calculation" in row:
+                row.pop("calculation")
+        else:
+            names.append(row["name"])
         return row
 
-    def section(depth, in_repeat):
-        kind = rng.choice(["repeat", "repeat", "group"]) if depth > 0 else "repeat"
-        row = {"type": f"begin {kind}", "name": fresh("r" if kind == "repeat" else "g"), "label": "S" + str(n[0])}
+    used_loop = [False]
+
+    def section(depth, in_repeat, in_loop=False):
+        kind = rng.choice(["repeat", "repeat", "group", "loop"]) if depth > 0 else "repeat"
+        if kind == "loop" and (in_loop or used_loop[0]):
+            kind = "group"   # one loop per form: its per-choice groups are named after the choices
+        if kind == "loop":
+            # legacy `begin loop over <list>`: a GroupedSection of type `loop`, one group per choice
+            used_loop[0] = True
+            row = {"type": "begin loop over lp", "name": fresh("l"), "label": "S" + str(n[0])}
+        else:
+            row = {"type": f"begin {kind}", "name": fresh("r" if kind == "repeat" else "g"), "label": "S" + str(n[0])}
         if kind == "repeat" and rng.random() < 0.2:
             row["repeat_count"] = rng.choice(["2", "${" + names[0] + "}"]) if names else "2"
         rows.append(row)
         inner = in_repeat or kind == "repeat"
+        lp = in_loop or kind == "loop"
         for _ in range(rng.randint(1, 2)):
-            rows.append(question(inner))
-        if depth < rng.randint(1, 3):
+            rows.append(question(inner, lp))
+        if depth < rng.randint(1, 3) and not lp:   # sections inside a loop would be duplicated per choice
             for _ in range(rng.randint(1, 2)):
-                section(depth + 1, inner)
+                section(depth + 1, inner, lp)
                 if rng.random() < 0.5:
-                    rows.append(question(inner))
+                    rows.append(question(inner, lp))
         rows.append({"type": f"end {kind}"})
 
     rows.append(question(False))
@@ -286,6 +302,9 @@ def nest_form(rng: random.Random) -> dict:
         section(0, False)
     # triggers must point at visible questions defined anywhere; integer/… names were collected in order
     form = {"survey": rows, "_features": ["nest"]}
+    if used_loop[0]:
+        form["choices"] = [{"list_name": "lp", "name": "maize", "label": "Maize"}, {"list_name": "lp", "name": "rice", "label": "Rice"}]
+        form["_features"].append("nest-loop")
     return form
 
 
